@@ -56,7 +56,7 @@ var specs = map[string]spec{
 	"C05": {Level: "fault_enumeration", Flavours: []string{"seq"}, Shards: 14, QuickB: "100s", ThorB: "15m"},
 	"C06": {Level: "fault_enumeration", Flavours: []string{"seqcap"}, Shards: 14, QuickB: "100s", ThorB: "15m", MemKB: 3 << 20},
 	"C07": {Level: "fault_enumeration", Flavours: []string{"seq"}, Shards: 14, QuickB: "100s", ThorB: "15m"},
-	"C08": {Level: "exploration", Flavours: []string{"sched"}, Shards: 14, QuickB: "100s", ThorB: "15m"},
+	"C08": {Level: "exploration", Flavours: []string{"sched", "seq"}, Shards: 7, QuickB: "100s", ThorB: "15m"},
 	"C09": {Level: "model_checking", Flavours: []string{"sched"}, Shards: 14, QuickB: "100s", ThorB: "15m"},
 	"C10": {Level: "model_checking", Flavours: []string{"sched"}, Shards: 14, QuickB: "100s", ThorB: "20m"},
 	"C11": {Level: "model_checking", Flavours: []string{"sched"}, Shards: 14, QuickB: "100s", ThorB: "20m"},
@@ -551,8 +551,11 @@ func runCheck(prop, tier, only string) int {
 		if i == 0 || r.Bound < agg.Bound {
 			agg.Bound = r.Bound
 		}
-		if r.Rule != "" {
-			agg.Rule = r.Rule
+		if r.Rule != "" && !strings.Contains(agg.Rule, r.Rule) {
+			if agg.Rule != "" {
+				agg.Rule += " || "
+			}
+			agg.Rule += r.Rule
 		}
 		for k, v := range r.Groups {
 			agg.Groups[k] += v
